@@ -215,3 +215,72 @@ Fixpoint run_sched (gap : nat) (g : graph) (ts : list task) (sched : list nat) :
   end.
 
 Definition fresh (t : task) : bool := match snd t with Pre _ => true | _ => false end.
+
+(* ------------------------------------------------------------------------------------------- persisted data, load path
+   `port.save()` writes the port's attributes (the expression text among them) to the store; `port.remove(persisted_data=False)`
+   (a peripheral port going away, server shutdown) keeps them; `port.load()` -- called for every port that core_ports.load
+   creates: a virtual port added through the API, a peripheral port coming back, every port at start-up -- hands each
+   persisted attribute to set_attr, the expression last: `load_from_data` -> `set_attr('expression', text)` ->
+   `attr_set_expression`, i.e. THE SAME parse + check_loops + store as a PATCH (a refusal is logged and the port stays
+   without expression).  So each of these operations is a sequence of the operations above: *)
+Definition store := list (string * option expr).          (* persisted expression per port id *)
+
+Inductive xop :=
+| XSave (p : string)       (* port.save() *)
+| XUnplug (p : string)     (* port.remove(persisted_data=False) *)
+| XPlug (p : string)       (* core_ports.load_one(...) : create + load() *)
+| XRestart                 (* every port removed with its persisted data kept, then core_ports.load(all of them): all created
+                              first (no expressions), then loaded one after the other in the same order *)
+| XProbe (p : string).     (* observe a port's expression *)
+
+Definition persisted_ops (s : store) (p : string) : list op :=
+  match lookup s p with Some (Some e) => [OSet p (TExpr e)] | _ => [] end.
+
+Definition xexpand (g : graph) (s : store) (x : xop) : list op :=
+  match x with
+  | XSave _ | XProbe _ => []
+  | XUnplug p => [ORemove p]
+  | XPlug p => match lookup g p with Some _ => [] | None => OAdd p :: persisted_ops s p end
+  | XRestart => map (fun k => OSet k TEmpty) (map fst g) ++ flat_map (persisted_ops s) (map fst g)
+  end.
+
+Fixpoint sput (s : store) (p : string) (v : option expr) : store :=
+  match s with
+  | [] => [(p, v)]
+  | (k, old) :: r => if String.eqb p k then (k, v) :: r else (k, old) :: sput r p v
+  end.
+
+Definition xstore (g : graph) (s : store) (x : xop) : store :=
+  match x with
+  | XSave p => match lookup g p with Some v => sput s p v | None => s end
+  | _ => s
+  end.
+
+(* port.remove() of the API deletes the persisted data with the port *)
+Definition store_after_op (g : graph) (s : store) (o : op) (out : outcome) : store :=
+  match o, out with
+  | ORemove p, Accepted => remove_port s p
+  | _, _ => s
+  end.
+
+Definition xoutcome (g : graph) (x : xop) : outcome :=
+  match x with
+  | XSave p | XUnplug p | XProbe p => match lookup g p with Some _ => Accepted | None => NoPort end
+  | XPlug p => match lookup g p with Some _ => NoPort | None => Accepted end
+  | XRestart => Accepted
+  end.
+
+Definition run_ops (stepf : graph -> op -> graph * outcome) (g : graph) (l : list op) : graph :=
+  fold_left (fun g o => fst (stepf g o)) l g.
+
+Definition xstep (stepf : graph -> op -> graph * outcome) (st : graph * store) (x : xop) : (graph * store) * outcome :=
+  let '(g, s) := st in ((run_ops stepf g (xexpand g s x), xstore g s x), xoutcome g x).
+
+(* histories over both kinds of operations *)
+Inductive hop := HBase (o : op) | HExt (x : xop).
+
+Definition happly (st : graph * store) (h : hop) : graph * store :=
+  match h with
+  | HBase o => let '(g', out) := step (fst st) o in (g', store_after_op (fst st) (snd st) o out)
+  | HExt x => fst (xstep step st x)
+  end.
